@@ -5,3 +5,4 @@ import LA.Props.C03
 import LA.Props.C10
 import LA.Props.C19
 import LA.Props.C09
+import LA.Props.C15
